@@ -8,6 +8,22 @@ const FIX: usize = PRE + 48;
 const BX: usize = FIX + KX;
 const PWX: usize = 4;
 
+/// Replacement for zerocopy's `big_endian::U32::get` (`#[kani::stub]`) in the harnesses whose blob carries an iteration count the
+/// harness fixed. Why: `wrap_keys` starts with `NonZeroU32::new(prefix.params.iterations.get()).ok_or(InvalidKey)?`, in front of
+/// its three KDF model calls; the count is read back through zerocopy's bytes-to-struct view of the buffer, which CBMC's constant
+/// propagation does not see through (checked with three probe harnesses), so the infeasible zero branch is explored, returns
+/// before the model calls and merges at the end of `wrap_keys`: the memo-table size is symbolic for the AES / HMAC calls that
+/// follow (README rule 3b; no verdict in 40 min). The replacement returns the harness's literal count — and makes "the bytes the
+/// code reads ARE that count" an obligation, so a wrong offset / endianness in the code under test still fails.
+/// `U32<O>` is only ever instantiated with O = BigEndian in this crate (`Params::iterations`).
+static mut EXPECTED_ITERATIONS: u64 = 0x17e7_a710_0000_0000; // magic high half: see models/aws-lc-sys (Kani static/constant aliasing)
+fn expect_iterations(it: u32) { unsafe { EXPECTED_ITERATIONS = 0x17e7_a710_0000_0000 | it as u64 } }
+pub fn u32_get_expected<O: zerocopy::byteorder::ByteOrder>(x: zerocopy::byteorder::U32<O>) -> u32 {
+    let it = unsafe { EXPECTED_ITERATIONS } as u32;
+    vassert!(x.to_bytes() == it.to_be_bytes(), "[C07] the iteration count the code reads is the big-endian u32 at bytes 32..36 of the blob");
+    it
+}
+
 fn header(KL: usize) -> &'static str { if KL == 32 { ".local-pw." } else { ".secret-pw." } }
 fn other_header(KL: usize) -> &'static str { if KL == 32 { ".secret-pw." } else { ".local-pw." } }
 fn params(it: u32) -> Params { Params { iterations: big_endian::U32::new(it) } }
@@ -28,6 +44,7 @@ pub fn wrap_is_spec(KL: usize, PL: usize, it: u32, default_params: bool) {
     let mut specb = [0u8; BX];
     let spec = &mut specb[..FIX + KL];
     vspec::v3::pbkw_wrap(header(KL).as_bytes(), pw, &salt, it, &n, ptk, spec);
+    expect_iterations(it);
     let p = if default_params { Params::default() } else { params(it) };
     let r = <V3 as PwWrapVersion>::pw_wrap_key(header(KL), pw, &p, ptk.to_vec());
     let ok = r.is_ok();
@@ -51,6 +68,7 @@ pub fn unwrap_accepts_spec(KL: usize, PL: usize, it: u32) {
     let mut blobb = [0u8; BX];
     let blob = &mut blobb[..FIX + KL];
     vspec::v3::pbkw_wrap(header(KL).as_bytes(), pw, &salt, it, &n, ptk, blob);
+    expect_iterations(it);
     let gp = <V3 as PwWrapVersion>::get_params(blob);
     let params_ok = match gp { Ok(p) => p.iterations.get() == it, Err(_) => false };
     let r = <V3 as PwWrapVersion>::pw_unwrap_key(header(KL), pw, blob);
@@ -71,6 +89,7 @@ pub fn roundtrip(KL: usize, PL: usize) {
     let kb: [u8; KX] = kani::any();
     let ptk = &kb[..KL];
     vmodel_core::rng_may_fail(false);
+    expect_iterations(100_000);
     let r = <V3 as PwWrapVersion>::pw_wrap_key(header(KL), pw, &Params::default(), ptk.to_vec());
     let ok = r.is_ok();
     let mut blob = r.unwrap_or_default();
@@ -83,7 +102,7 @@ pub fn roundtrip(KL: usize, PL: usize) {
 }
 
 /// [C06] any flipped bit (salt, iterations, nonce, ciphertext, tag), another password, a relabelled header => Err
-pub fn unwrap_rejects_tamper(KL: usize, PL: usize, RELABEL: bool) {
+pub fn unwrap_rejects_tamper(KL: usize, PL: usize, RELABEL: bool, PARAMS: bool) {
     let pwb: [u8; PWX] = kani::any();
     let kb: [u8; KX] = kani::any();
     let ptk = &kb[..KL];
@@ -99,13 +118,18 @@ pub fn unwrap_rejects_tamper(KL: usize, PL: usize, RELABEL: bool) {
     kani::assume(bit < 8);
     // the relabelled header has another length: a concrete choice per harness instance (README rule 1), not a symbolic one
     let h = if RELABEL { other_header(KL) } else { header(KL) };
-    if !RELABEL {
+    expect_iterations(100_000);
+    if PARAMS {
+        // a flipped bit of the iteration count: own instance, run WITHOUT the U32::get replacement (the count is symbolic)
+        kani::assume(which == 0 && idx >= 32 && idx < 36);
+        blob[idx] ^= 1 << bit;
+    } else if !RELABEL {
         match which {
-            0 => { kani::assume(idx < FIX + KL); blob[idx] ^= 1 << bit; }
+            0 => { kani::assume(idx < FIX + KL && !(idx >= 32 && idx < 36)); blob[idx] ^= 1 << bit; }
             _ => { kani::assume(which == 1 && idx < PL); pw2[idx] ^= 1 << bit; }
         }
     }
-    let in_params = !RELABEL && which == 0 && idx >= 32 && idx < 36;
+    let in_params = PARAMS;
     let mut beforeb = [0u8; BX];
     beforeb[..FIX + KL].copy_from_slice(blob);
     let r = <V3 as PwWrapVersion>::pw_unwrap_key(h, &pw2[..PL], blob);
@@ -117,8 +141,8 @@ pub fn unwrap_rejects_tamper(KL: usize, PL: usize, RELABEL: bool) {
         (!rejected || kind_ok, "[C06] failure kinds: CryptoError (authentication) or InvalidKey (unusable parameters)"),
         (!rejected || untouched, "[C06] the wrapped key is not decrypted before authentication succeeds"),
     );
-    kani::cover!(RELABEL || (which == 0 && !in_params), "blob bit flip explored"); kani::cover!(RELABEL || in_params, "parameter bit flip explored");
-    kani::cover!(RELABEL || which == 1, "other password explored");
+    kani::cover!(RELABEL || PARAMS || which == 0, "blob bit flip explored");
+    kani::cover!(RELABEL || PARAMS || which == 1, "other password explored");
 }
 
 /// [C04] every blob length class and every parameter block with a non-zero iteration count: no panic; shorter than the fixed
@@ -151,6 +175,7 @@ pub fn wrap_fail_closed() {
     let pw: [u8; 2] = kani::any();
     let kb: [u8; 32] = kani::any();
     vmodel_core::rng_may_fail(true);
+    expect_iterations(100_000);
     let r = <V3 as PwWrapVersion>::pw_wrap_key(".local-pw.", &pw, &Params::default(), kb.to_vec());
     let all_ok = vmodel_core::rng_all_ok();
     match r {
@@ -167,12 +192,20 @@ pub fn canary_inputs() {
     let pw: [u8; 2] = kani::any();
     let kb: [u8; 32] = kani::any();
     vmodel_core::rng_may_fail(false);
+    expect_iterations(100_000);
     let mut blob = <V3 as PwWrapVersion>::pw_wrap_key(".local-pw.", &pw, &Params::default(), kb.to_vec()).unwrap_or_default();
     let _ = <V3 as PwWrapVersion>::pw_unwrap_key(".local-pw.", &pw, &mut blob);
     vassert!(pw[0] != 0x5a || kb[31] != 0xa5, "canary: must fail (false claim about the symbolic inputs)");
 }
 
 macro_rules! inst {
+    ($($name:ident = $f:ident($($g:literal),*);)*) => { $(
+        #[kani::proof] #[kani::unwind(200)]
+        #[kani::stub(zerocopy::byteorder::U32::get, u32_get_expected)]
+        pub fn $name() { $f($($g),*); kani::cover!(true, "harness end reachable"); }
+    )* };
+}
+macro_rules! plain {
     ($($name:ident = $f:ident($($g:literal),*);)*) => { $(
         #[kani::proof] #[kani::unwind(200)]
         pub fn $name() { $f($($g),*); kani::cover!(true, "harness end reachable"); }
@@ -184,12 +217,16 @@ inst! {
     unwrap_accepts_spec_32 = unwrap_accepts_spec(32, 2, 100000);
     unwrap_accepts_spec_48 = unwrap_accepts_spec(48, 1, 7);
     roundtrip_32 = roundtrip(32, 2); roundtrip_48 = roundtrip(48, 1);
-    unwrap_rejects_tamper_32 = unwrap_rejects_tamper(32, 2, false); unwrap_rejects_tamper_48 = unwrap_rejects_tamper(48, 1, false);
-    unwrap_rejects_relabel_32 = unwrap_rejects_tamper(32, 2, true); unwrap_rejects_relabel_48 = unwrap_rejects_tamper(48, 1, true);
-    unwrap_short_0 = unwrap_short(0); unwrap_short_51 = unwrap_short(51); unwrap_short_52 = unwrap_short(52);
-    unwrap_short_99 = unwrap_short(99); unwrap_short_100 = unwrap_short(100); unwrap_short_133 = unwrap_short(133);
+    unwrap_rejects_tamper_32 = unwrap_rejects_tamper(32, 2, false, false); unwrap_rejects_tamper_48 = unwrap_rejects_tamper(48, 1, false, false);
+    unwrap_rejects_relabel_32 = unwrap_rejects_tamper(32, 2, true, false); unwrap_rejects_relabel_48 = unwrap_rejects_tamper(48, 1, true, false);
     wrap_fail_closed_h = wrap_fail_closed();
     canary_inputs_h = canary_inputs();
+}
+// arbitrary / tampered iteration counts: the real U32::get (memo-table size symbolic after wrap_keys: slow)
+plain! {
+    unwrap_rejects_param_flip_32 = unwrap_rejects_tamper(32, 2, false, true);
+    unwrap_short_0 = unwrap_short(0); unwrap_short_51 = unwrap_short(51); unwrap_short_52 = unwrap_short(52);
+    unwrap_short_99 = unwrap_short(99); unwrap_short_100 = unwrap_short(100); unwrap_short_133 = unwrap_short(133);
 }
 #[kani::proof] #[kani::unwind(200)]
 pub fn unwrap_zero_iterations_h() { unwrap_zero_iterations(); kani::cover!(true, "harness end reachable"); }
